@@ -17,10 +17,12 @@ ASSUMPTIONS = [
     "exact rational arithmetic: Decimal rounding of the L1 mid / entry average is compared to 1e-18, not modelled",
     "reading of the text: 'the instrument's current price' is InstrumentDataState::price() after the event was processed, and 'newer market data' is any market item for the instrument that arrives after the fill (arrival order, not exchange time): once a price is held, a stale or price-less item also re-evaluates the estimate at price(), which may be older than the last fill's price",
     "trading disabled (Engine::process generates no orders); GlobalData = DefaultGlobalData (no-op)",
+    "the arithmetic kernels calculate_pnl_unrealised / approximate_remaining_exit_fees (position.rs), volume_weighted_mid_price and struct Level (barter-data/src/books/mod.rs), enum Side (barter-instrument/src/lib.rs) are additionally tied to the source by translation: tools/rust2lean.py regenerates their Lean definitions from the current Rust text before every build (PREBUILD) and theorem kernels_agree_with_source proves them equal to the model's definitions for all arguments; trusted there: the translator's reading of the small Rust subset it accepts (it rejects everything else) and its fixed Decimal prelude (abs, is_zero, checked_div = None exactly on a zero divisor, MAX/MIN)",
 ]
 SOURCE_FILES = ["barter/src/engine/state/mod.rs", "barter/src/engine/state/instrument/mod.rs", "barter/src/engine/state/position.rs",
                 "barter/src/engine/state/instrument/data.rs", "barter/src/engine/mod.rs", "barter-data/src/books/mod.rs",
-                "barter-data/src/subscription/book.rs"]
+                "barter-data/src/subscription/book.rs", "barter-instrument/src/lib.rs"]
+PREBUILD = [["python3", "tools/rust2lean.py", "--require", "position,book"]]
 
 
 def signature(ops, k, key, impl_line, spec_line):
@@ -90,4 +92,5 @@ LEVEL_NOTE = ("Trusted: Lean kernel; axioms propext/Classical.choice/Quot.sound 
               "C09's model), tied by sampled correspondence (300 quick / 10k random + all 30 940 sequences of length <= 4 over 13 symbols thorough); "
               "harness and driver. Assumes DefaultInstrumentMarketData, fills with quantity > 0, two-sided L1 payloads whose amounts do not sum to "
               "zero, known instruments, exact arithmetic (Decimal rounding compared to 1e-18). The oracle (spec driver) demands the estimate after "
-              "EVERY fill, so opening fills with a non-zero fee are reported on every run as KNOWN-FINDING clause=after_fill/opening_fill.")
+              "EVERY fill, so opening fills with a non-zero fee are reported on every run as KNOWN-FINDING clause=after_fill/opening_fill. "
+              "Additionally tied by translation: the Lean definitions of the kernels calculate_pnl_unrealised / approximate_remaining_exit_fees (position.rs), volume_weighted_mid_price and struct Level (barter-data/src/books/mod.rs), enum Side (barter-instrument/src/lib.rs) are regenerated from the current source on every run (tools/rust2lean.py) and proved equal to the model's (kernels_agree_with_source), so a change of such a kernel breaks a proof obligation directly; the translator and its Decimal prelude are trusted for that tie.")
